@@ -162,6 +162,25 @@ def project(sh, path):
     return sh
 
 
+PARAM = "<param>"
+
+
+class Fact:
+    __slots__ = ("kind", "value", "path", "stmt", "always")
+
+    def __init__(self, kind, value, path, stmt, always):
+        self.kind = kind
+        self.value = value
+        self.path = path
+        self.stmt = stmt
+        self.always = always
+
+    def __iter__(self):
+        yield self.kind
+        yield self.value
+        yield self.path
+
+
 class Target:
     """Result of resolving one call site."""
     __slots__ = ("funcs", "kind", "cls", "name", "recv")
@@ -190,6 +209,7 @@ class Typing:
         self._hits = 0
         self.class_names = set(prog.class_by_name)
         self._assigns = {}
+        self._reach = {}
 
     # -- cycle-safe memoisation ------------------------------------------
     def _memo(self, key, compute, bottom=None):
@@ -239,54 +259,131 @@ class Typing:
             else "nested:" + ci.key
 
     def assignments(self, func):
-        """name -> [(kind, value expr, path)]; kinds: expr, elem (value is
-        an iterable whose element is bound), add (value added as element)."""
+        """name -> [Fact]; a Fact unpacks as (kind, value expr, path) with
+        kinds: expr, elem (value is an iterable whose element is bound),
+        add (value added as an element), exc."""
         if func in self._assigns:
             return self._assigns[func]
         facts = {}
 
-        def bind(target, kind, value, path=()):
+        def put(name, kind, value, path, stmt, always=False):
+            facts.setdefault(name, []).append(
+                Fact(kind, value, tuple(path), stmt, always))
+
+        def bind(target, kind, value, stmt, path=(), always=False):
             if isinstance(target, ast.Name):
-                facts.setdefault(target.id, []).append((kind, value, path))
+                put(target.id, kind, value, path, stmt, always)
             elif isinstance(target, (ast.Tuple, ast.List)):
                 for i, el in enumerate(target.elts):
                     if isinstance(el, ast.Starred):
                         el = el.value
-                    bind(el, kind, value, path + (i,))
+                    bind(el, kind, value, stmt, path + (i,), always)
             elif isinstance(target, ast.Subscript) and \
                     isinstance(target.value, ast.Name) and kind == "expr" and not path:
-                facts.setdefault(target.value.id, []).append(("add", value, ()))
+                put(target.value.id, "add", value, (), stmt, True)
 
+        from .cfg import enclosing_stmt
         for n in own_nodes(func):
             if isinstance(n, ast.Assign):
                 for t in n.targets:
-                    bind(t, "expr", n.value)
+                    bind(t, "expr", n.value, n)
             elif isinstance(n, ast.AnnAssign) and n.value is not None:
-                bind(n.target, "expr", n.value)
+                bind(n.target, "expr", n.value, n)
             elif isinstance(n, ast.AugAssign):
-                bind(n.target, "expr", n.value)
+                if isinstance(n.target, ast.Name):
+                    put(n.target.id, "expr", n.value, (), n, True)
+                else:
+                    bind(n.target, "expr", n.value, n)
             elif isinstance(n, (ast.For, ast.AsyncFor)):
-                bind(n.target, "elem", n.iter)
+                bind(n.target, "elem", n.iter, n)
             elif isinstance(n, ast.comprehension):
-                bind(n.target, "elem", n.iter)
+                bind(n.target, "elem", n.iter, enclosing_stmt(n), always=True)
             elif isinstance(n, ast.NamedExpr):
-                bind(n.target, "expr", n.value)
+                bind(n.target, "expr", n.value, enclosing_stmt(n), always=True)
             elif isinstance(n, ast.With):
                 for it in n.items:
                     if it.optional_vars is not None:
-                        bind(it.optional_vars, "expr", it.context_expr)
+                        bind(it.optional_vars, "expr", it.context_expr, n)
             elif isinstance(n, ast.ExceptHandler) and n.name:
-                facts.setdefault(n.name, []).append(("exc", None, ()))
+                put(n.name, "exc", None, (), n, True)
             elif isinstance(n, ast.Call) and isinstance(n.func, ast.Attribute) \
                     and isinstance(n.func.value, ast.Name):
                 if n.func.attr in ("append", "add") and len(n.args) == 1:
-                    facts.setdefault(n.func.value.id, []).append(
-                        ("add", n.args[0], ()))
+                    put(n.func.value.id, "add", n.args[0], (), enclosing_stmt(n), True)
                 elif n.func.attr == "insert" and len(n.args) == 2:
-                    facts.setdefault(n.func.value.id, []).append(
-                        ("add", n.args[1], ()))
+                    put(n.func.value.id, "add", n.args[1], (), enclosing_stmt(n), True)
         self._assigns[func] = facts
         return facts
+
+    def reaching(self, func):
+        """stmt -> {name: frozenset(Fact | PARAM)}: definitions of local
+        names reaching the start of each statement (forward may-analysis on
+        the statement CFG; 'always' facts are not tracked here)."""
+        if func in self._reach:
+            return self._reach[func]
+        from .cfg import cfg_of, ENTRY
+        g = cfg_of(func)
+        facts = self.assignments(func)
+        gen = {}
+        for name, lst in facts.items():
+            for fa in lst:
+                if not fa.always and fa.stmt is not None:
+                    gen.setdefault(fa.stmt, {}).setdefault(name, set()).add(fa)
+        IN = {n: {} for n in g.succ}
+        OUT = {n: {} for n in g.succ}
+        OUT[ENTRY] = {p: frozenset([PARAM]) for p in func.all_param_names()}
+        work = [n for n in g.succ if n != ENTRY]
+        inw = set(work)
+        while work:
+            n = work.pop()
+            inw.discard(n)
+            new_in = {}
+            for p in g.pred.get(n, ()):
+                for name, s in OUT[p].items():
+                    if name in new_in:
+                        if not s <= new_in[name]:
+                            new_in[name] = new_in[name] | s
+                    else:
+                        new_in[name] = s
+            IN[n] = new_in
+            gn = gen.get(n)
+            if gn:
+                new_out = dict(new_in)
+                for name, s in gn.items():
+                    new_out[name] = frozenset(s)
+            else:
+                new_out = new_in
+            if new_out != OUT[n]:
+                OUT[n] = new_out
+                for m in g.succ.get(n, ()):
+                    if m not in inw and m != ENTRY:
+                        inw.add(m)
+                        work.append(m)
+        self._reach[func] = IN
+        return IN
+
+    def facts_at(self, func, name, node):
+        """(facts, is_param) for `name` as seen by the use at `node`.
+        Flow-sensitive when `node` lies in `func`'s own body."""
+        allf = self.assignments(func).get(name, [])
+        is_param = name in func.all_param_names()
+        if node is None or not allf:
+            return allf, is_param
+        from .cfg import enclosing_stmt
+        st = enclosing_stmt(node)
+        IN = self.reaching(func)
+        if st is None or st not in IN:
+            return allf, is_param
+        reach = IN[st].get(name)
+        always = [fa for fa in allf if fa.always]
+        if reach is None:
+            # no tracked definition reaches: only 'always' facts (or dead code)
+            if not always and not is_param:
+                return allf, is_param
+            return always, False
+        out = [fa for fa in allf if fa.always or fa in reach]
+        # a definition made by this very statement's loop header
+        return out, (PARAM in reach)
 
     # ------------------------------------------------------------------
     def param_shape(self, func, name):
@@ -340,16 +437,19 @@ class Typing:
                         out.add(IMM)
         return out
 
-    def var(self, func, name):
-        return flat(self.var_shape(func, name))
+    def var(self, func, name, at=None):
+        return flat(self.var_shape(func, name, at))
 
-    def var_shape(self, func, name):
-        return self._memo(("var", func, name),
-                          lambda: self._var_shape(func, name))
+    def var_shape(self, func, name, at=None):
+        facts, is_param = self.facts_at(func, name, at)
+        allf = self.assignments(func).get(name, [])
+        if len(facts) == len(allf) and is_param == (name in func.all_param_names()):
+            key = ("var", func, name)
+        else:
+            key = ("var", func, name, frozenset(id(x) for x in facts), is_param)
+        return self._memo(key, lambda: self._var_shape(func, name, facts, is_param))
 
-    def _var_shape(self, func, name):
-        facts = self.assignments(func).get(name, [])
-        is_param = name in func.all_param_names()
+    def _var_shape(self, func, name, facts, is_param):
         out = set()
         if is_param:
             out = self.param_shape(func, name)
@@ -369,7 +469,8 @@ class Typing:
             else:
                 sh = set()
             out = merge(out, sh)
-        if not facts and not is_param:
+        if not self.assignments(func).get(name) and \
+                name not in func.all_param_names():
             if func.outer is not None:
                 return self.var_shape(func.outer, name)
             if func.cls is not None and func.cls.outer is not None:
@@ -428,7 +529,7 @@ class Typing:
         if isinstance(node, ast.Name):
             if node.id in ("True", "False"):
                 return {BOOL}
-            return self._narrow(func, node, self.var_shape(func, node.id))
+            return self._narrow(func, node, self.var_shape(func, node.id, node))
         if isinstance(node, ast.List):
             el = set()
             for e in node.elts:
